@@ -24,6 +24,9 @@ func Run(cfg *hx.Config) error {
 	for _, ops := range boundaryCases() {
 		emit("boundary", ops, []string{"boundary-fixed"})
 	}
+	for _, ops := range routedCases() {
+		emit("routed", ops, []string{"routed-fixed"})
+	}
 	for _, ops := range realTimerCases(cfg.Tier) {
 		emit("realtimer", ops, []string{"realtimer"})
 	}
